@@ -295,6 +295,7 @@ func main() {
 				"functions_analysed": funcs,
 				"exhaustive":         true,
 				"selftest":           selfRes,
+				"inline_prepass":     inlineNote(c.InlineLog),
 			},
 		}
 		b, _ := json.MarshalIndent(ev, "", " ")
@@ -305,4 +306,12 @@ func main() {
 		}
 	}
 	os.Exit(exit)
+}
+
+// inlineNote: what the [INLINE] pre-pass did on this run (helpers not part of the pinned tree expanded in place).
+func inlineNote(log []string) any {
+	if len(log) == 0 {
+		return "no function outside the pinned function table: nothing expanded, /repo analysed as written"
+	}
+	return log
 }
